@@ -118,6 +118,9 @@ func (f c11File) sourceWith(tr func(ref string) string) string {
 			sb.WriteString("({{ cv }}/{{ sv }}/{{ pv }})")
 		case "set":
 			sb.WriteString(`{% set sv = "` + it.Text + `" %}`)
+		case "setpv":
+			// the includer binds the very name a later include passes as a pair: the pair wins
+			sb.WriteString(`{% set pv = "` + it.Text + `" %}`)
 		case "include", "lazy":
 			if it.Kind == "include" {
 				sb.WriteString(`{% include "` + it.Ref + `"`)
@@ -244,6 +247,8 @@ func (r *c11Ref) items(name string, items []c11Item, env *c11Env, sb *strings.Bu
 			sb.WriteString("(" + env.cv + "/" + env.sv + "/" + env.pv + ")")
 		case "set":
 			env.sv = it.Text
+		case "setpv":
+			env.pv = it.Text
 		case "blockhere":
 			if childBlock != nil {
 				if err := childBlock(env, sb); err != nil {
@@ -546,8 +551,11 @@ func genC11(t *rapid.T) *c11Case {
 				}
 				nrefs := drawInt(t, 0, 3, "nrefs")
 				for k := 0; k < nrefs; k++ {
-					if drawInt(t, 0, 3, "set") == 0 {
+					switch drawInt(t, 0, 7, "set") {
+					case 0, 1:
 						f.Items = append(f.Items, c11Item{Kind: "set", Text: fmt.Sprintf("S%d", marker)})
+					case 2:
+						f.Items = append(f.Items, c11Item{Kind: "setpv", Text: fmt.Sprintf("SP%d", marker)})
 					}
 					// target: a later file, or (sometimes) a missing name
 					var target string
@@ -723,7 +731,7 @@ func genC11(t *rapid.T) *c11Case {
 
 var _ = register(&propSpec{
 	ID:    "C11.compose",
-	Rule:  "virtual file trees (10 names with equal base names in different directories up to 3 deep), 1-3 loaders serving overlapping names with different contents, acyclic reference graphs over include (static / lazy, with pair, only, if_exists), extends (+ block override), import (+ call), ssi plain (content never parsed) and ssi parsed; names written rooted, relative (incl. ..) and rooted with a detour; references to names no loader serves (by every tag; also from inside the target of an if_exists include, which if_exists does not forgive); includer variables (context, set, with pair) probed in every file. The worker's working directory holds canary files at the same relative paths, and two of the virtual names also exist as absolute paths of the real file system (canary content); none of them is served by a loader. Oracle: reference composition (first loader having a name wins; relative names resolve against the referring file; missing => error, or nothing with if_exists; only hides includer variables), the loaders' Get logs contain no name outside the referenced set and everything used was fetched, no canary text ever appears. Non-trivial: loaders disagree on a name, or a relative reference crosses directories, or only / if_exists present.",
+	Rule:  "virtual file trees (10 names with equal base names in different directories up to 3 deep), 1-3 loaders serving overlapping names with different contents, acyclic reference graphs over include (static / lazy, with pair, only, if_exists), extends (+ block override), import (+ call), ssi plain (content never parsed) and ssi parsed; names written rooted, relative (incl. ..) and rooted with a detour; references to names no loader serves (by every tag; also from inside the target of an if_exists include, which if_exists does not forgive); includer variables (context, set, with pair, a set of the very name a pair passes) probed in every file. The worker's working directory holds canary files at the same relative paths, and two of the virtual names also exist as absolute paths of the real file system (canary content); none of them is served by a loader. Oracle: reference composition (first loader having a name wins; relative names resolve against the referring file; missing => error, or nothing with if_exists; only hides includer variables), the loaders' Get logs contain no name outside the referenced set and everything used was fetched, no canary text ever appears. Non-trivial: loaders disagree on a name, or a relative reference crosses directories, or only / if_exists present.",
 	Gen:   func(t *rapid.T) any { return genC11(t) },
 	New:   func() any { return &c11Case{} },
 	Check: checkC11,
